@@ -380,6 +380,22 @@ func (r *libRec) scenarioCache(i int) {
 			r.exec(1, idx, vx.Query{E: q, GB: gb})
 		}
 	}
+	// caller-held expression trees, modified in place between executions (the query that is executed
+	// is the tree as it is at that moment)
+	for k := 0; k < 6; k++ {
+		src := vx.CloneExpr(qs[rng.Intn(len(qs))])
+		var lib []*updog.ExprEqual
+		var ranks []*vx.Expr
+		uq := &updog.Query{Expr: d.ToUpdogWithLeaves(src, &lib, &ranks)}
+		for step := 0; step < 3 && len(lib) > 0; step++ {
+			res := d.ResOf(vx.Exec(idx, uq))
+			r.out.Emit(map[string]any{"ev": "Exec", "p": 1, "e": vx.CloneExpr(src), "gb": []int{}, "res": res, "fh": -1})
+			i := rng.Intn(len(lib))
+			nl := leaves[rng.Intn(len(leaves))]
+			ranks[i].Col, ranks[i].Val = nl[0], nl[1]
+			lib[i].Column, lib[i].Value = d.Col(nl[0]), d.Val(nl[1])
+		}
+	}
 	// every single-leaf query again: stored / preloaded bitmaps must be unaltered
 	for _, l := range leaves {
 		r.exec(1, idx, vx.Query{E: &vx.Expr{Op: "eq", Col: l[0], Val: l[1]}})
